@@ -520,7 +520,7 @@ func TestC03(t *testing.T) {
 		Exec:           exec,
 		Bubble:         true,
 		Describe:       describe,
-		Tier:           "A",
+		Tier:           "B",
 		RequiredProbes: []string{"level-any", "level-one", "level-quorum", "level-all", "level-met", "level-not-met", "handoff-offered", "real-handoff-delivered", "cluster-write-run", "handoff-accepted", "acknowledged-with-owners-missing", "write-refused"},
 		Real:           []string{"coordinator.PointsWriter (MapShards, writeToShardWithContext)", "hh.Service / NodeProcessor / queue (half of the runs)", "models binary point encoding", "cluster mode (one run in eight): 2-4 real data nodes - tsdb.Store, coordinator.Service behind tcp.Mux, ShardWriter with connection pools, PointsWriter, hh.Service with queues and retry loops - on the simulated network and clock"},
 		Stub:           []string{"owners' stores (local TSDBStore, remote ShardWriter): outcome and answer time scripted", "meta client (one shard, drawn owners)", "hinted handoff as a model queue (other half of the runs)", "cluster mode: meta client over generated metadata; a node taken down stays down for the rest of the run"},
